@@ -14,6 +14,7 @@ Ptr(d, x) == [t |-> "ptr", d |-> d, x |-> x]
 Sl(arr, e) == [t |-> "sl", arr |-> arr, e |-> e]
 Mp(ks, vs) == [t |-> "mp", ks |-> ks, vs |-> vs]
 St(a, p, c) == [t |-> "st", a |-> a, p |-> p, c |-> c]
+Mpa(ks, e) == [t |-> "mpa", ks |-> ks, e |-> e]
 
 Ints == <<I(<<"1">>), I(<<"2">>), I(<<"3">>)>>
 Leaves == {I(<<"5">>), S(<<"x">>), B, TrNil,
@@ -23,6 +24,7 @@ Leaves == {I(<<"5">>), S(<<"x">>), B, TrNil,
            Sl(FALSE, <<Sl(FALSE, SubSeq(Ints, 1, 2)), Sl(FALSE, SubSeq(Ints, 2, 3))>>),      \* nested slices
            Ptr(1, Sl(FALSE, Ints)),
            Mp(<<>>, <<>>), Mp(<<<<"k">>>>, <<<<"1">>>>), Mp(<<<<"k">>, <<"j">>>>, <<<<"1">>, <<"2">>>>),
+           Mpa(<<<<"k">>>>, <<TrNil>>), Mpa(<<<<"k">>, <<"j">>>>, <<S(<<"x">>), TrNil>>), Mpa(<<<<"k">>, <<"j">>>>, <<I(<<"5">>), S(<<"y">>)>>),
            St(<<"1">>, <<"p">>, <<"c">>), Ptr(1, St(<<"2">>, <<"r">>, <<"d">>))}
 
 \* one leaf (or a pair of leaves) in each position: element of a stack, Condition expression, nested
